@@ -159,6 +159,14 @@ def run_case(ctx, index):
         f, elementwise, rtol, domain = FUNCS[fname]
         vcl = ['count', 'dyadic', 'frac', 'neg', 'tiny', 'manydigits']
     spec = gen.gen_spec(r, max_n=6, max_m=6, value_classes=vcl)
+    if op in ('norm', 'cli') and r.random() < .25 and spec.D.any() and \
+            np.all(spec.D >= 0):
+        # vectors that are almost, but not exactly, normalised already
+        ax = r.choice([0, 1])
+        tot = spec.D.sum(axis=ax, keepdims=True)
+        spec.D = np.where(tot > 0, spec.D / np.where(tot > 0, tot, 1), 0.) \
+            * r.choice([1 - 3e-6, 1 + 2e-6, 1 - 4e-7, 0.999999])
+        ctx.count('near_normalised_tables')
     recipe = r.choice(gen.LAYOUTS)
     axis = r.choice(['sample', 'observation'])
     inplace = r.random() < .5
